@@ -264,9 +264,13 @@ def build(ens, probs, init_name, opt, classical, reset, entry, as_lists, probs_a
     k = len(ens)
     n = int(round(np.log2(len(ens[0]))))
     na = int(np.ceil(np.log2(k))) if k > 1 else 0
-    if entry == "static":
+    if entry == "static":                       # initialize(circuit, ensemble) on all qubits of the circuit
         qc = QuantumCircuit(na + n)
         MixedInitialize.initialize(qc, e, opt_params=o, probabilities=p)
+        return qc, None
+    if entry == "static_qubits":                # initialize(circuit, ensemble, qubits) with an explicit qubit list
+        qc = QuantumCircuit(na + n)
+        MixedInitialize.initialize(qc, e, list(range(na + n)), opt_params=o, probabilities=p)
         return qc, None
     gate = MixedInitialize(e, initializer=get_initializer(init_name), opt_params=o, probabilities=p, reset=reset,
                            classical=classical)
@@ -361,7 +365,7 @@ def eval_bad(ctx, c, ens, probs):
         circ, gate = build(ens, probs, c["initializer"], c["opt_params"], c["classical"], c["reset"], c["entry"],
                            c["as_lists"], c["probs_array"])
         _ = circ.num_qubits
-        if c["entry"] == "static":
+        if c["entry"].startswith("static"):
             for inst in circ.data:          # force the lazily built definition
                 _ = inst.operation.definition
     except Exception:  # noqa: BLE001
@@ -426,13 +430,13 @@ def evaluate(ctx, deep):
                                   key=("o", n, k, classical, iname, repr(opt), ef, pf, ens[0].tobytes()), nontrivial=k >= 2)
                         eval_case(ctx, c, ens, probs)
             # static entry point (classical, reset=True, default initializer)
-            for opt in (None, {"unitary_scheme": "csd"}):
+            for opt, entry in ((None, "static"), ({"unitary_scheme": "csd"}, "static_qubits")):
                 ef = ENS_FAMS[int(rng.integers(len(ENS_FAMS)))]
                 pf = PROB_FAMS[int(rng.integers(len(PROB_FAMS)))]
                 ens = ensemble_family(rng, n, k, ef)
                 probs = prob_family(rng, k, pf)
                 c = {"class": "MixedInitialize", "n": n, "k": k, "initializer": "LowRankInitialize", "opt_params": opt,
-                     "classical": True, "reset": True, "entry": "static", "as_lists": False, "probs_array": False,
+                     "classical": True, "reset": True, "entry": entry, "as_lists": False, "probs_array": False,
                      "family": f"{ef}/{pf}", "check": "valid"}
                 ctx.count("static-initialize", key=("s", n, k, repr(opt), ef, pf, ens[0].tobytes()), nontrivial=k >= 2)
                 eval_case(ctx, c, ens, probs)
@@ -456,7 +460,7 @@ def evaluate(ctx, deep):
     for n in (1, 2) if not deep else (1, 2, 3):
         for k in range(1, (5 if not deep else 7) + 1):
             for bf in BAD_FAMS:
-                for classical, entry in ((True, "constructor"), (False, "constructor"), (True, "static")):
+                for classical, entry in ((True, "constructor"), (False, "constructor"), (True, "static"), (True, "static_qubits")):
                     if not classical and (n < 2 or k < 2):
                         continue
                     for _ in range(2 if deep else 1):
